@@ -83,6 +83,68 @@ let apply_sets (c : int) (s : state) (toks : ostring list) : state =
 
 let b01 b = if b then "1" else "0"
 
+(* ---------- object queue: the translated methods run by the interpreter of Lib/Mon.v ---------- *)
+let coq_string (s : ostring) : Model.string =
+  let bit c i = (Char.code c lsr i) land 1 = 1 in
+  let rec go i = if i >= String.length s then EmptyString else
+    let c = s.[i] in String (Ascii (bit c 0, bit c 1, bit c 2, bit c 3, bit c 4, bit c 5, bit c 6, bit c 7), go (i + 1)) in
+  go 0
+let rec nat_of_int n = if n <= 0 then O else S (nat_of_int (n - 1))
+let rec int_of_nat = function O -> 0 | S n -> 1 + int_of_nat n
+let run_queue (ops : ostring list) : ostring =
+  let b = Buffer.create 200 in
+  Buffer.add_string b "Q";
+  let st = ref (abs oq_init) in
+  let stop = ref false in
+  (* a call started on another thread with '&' and asleep on a condition variable *)
+  let pending : (ostring * z * z * int) option ref = ref None in
+  let ret r = match r.mr_ret with Some z -> string_of_z z | None -> "-" in
+  let show name r = match name with
+    | "read" -> " &r=" ^ ret r | "write" -> " &w" | _ -> " &?" in
+  let wake notes =
+    match !pending with
+    | Some (name, arg, obj, cv) when List.exists (fun n -> int_of_nat n = cv) notes ->
+        (match mcall oq_vt arg Z0 oq_methods (meth (coq_string name)) obj !st with
+         | MDone r -> st := r.mr_st; pending := None; Buffer.add_string b (show name r); r.mr_notes
+         | _ -> [])
+    | _ -> [] in
+  let call name arg obj k =
+    match mcall oq_vt arg Z0 oq_methods (meth (coq_string name)) obj !st with
+    | MDone r -> st := r.mr_st; k r;
+        (* the woken call notifies too: that can wake nobody else here (one sleeper at most) *)
+        ignore (wake r.mr_notes)
+    | MBlocked cv -> Buffer.add_string b (" blocked:" ^ string_of_int (int_of_nat cv)); stop := true
+    | MFail e -> Buffer.add_string b (" fail:" ^ err_name e); stop := true in
+  let acall name arg obj =
+    match mcall oq_vt arg Z0 oq_methods (meth (coq_string name)) obj !st with
+    | MDone r -> st := r.mr_st; Buffer.add_string b (show name r)
+    | MBlocked cv -> pending := Some (name, arg, obj, int_of_nat cv); Buffer.add_string b " &sleep"
+    | MFail e -> Buffer.add_string b (" fail:" ^ err_name e); stop := true in
+  List.iter (fun op -> if not !stop && String.length op > 0 then begin
+    let async = op.[0] = '&' in
+    let op = if async then String.sub op 1 (String.length op - 1) else op in
+    let a = z_of_string (if String.length op > 1 then String.sub op 1 (String.length op - 1) else "0") in
+    if async then (match op.[0] with
+      | 'r' -> acall "read" Z0 Z0
+      | 'w' -> acall "write" Z0 a
+      | _ -> Buffer.add_string b " ?")
+    else match op.[0] with
+    | 'r' -> call "read" Z0 Z0 (fun r -> Buffer.add_string b (" r=" ^ ret r))
+    | 'w' -> call "write" Z0 a (fun _ -> Buffer.add_string b " w")
+    | 'a' -> call "abort" Z0 Z0 (fun _ -> Buffer.add_string b " a")
+    | 'f' -> call "setFileSize" a Z0 (fun _ -> Buffer.add_string b " f")
+    | 'b' -> call "setBufferSize" a Z0 (fun _ -> Buffer.add_string b " b")
+    | 'g' -> call "tellg" Z0 Z0 (fun r -> Buffer.add_string b (" g=" ^ ret r))
+    | 'p' -> call "tellp" Z0 Z0 (fun r -> Buffer.add_string b (" p=" ^ ret r))
+    | 'G' -> call "good" Z0 Z0 (fun r -> Buffer.add_string b (" G=" ^ ret r))
+    | 'E' -> call "eof" Z0 Z0 (fun r -> Buffer.add_string b (" E=" ^ ret r))
+    | 'D' -> call "~ObjectQueue" Z0 Z0 (fun r ->
+               Buffer.add_string b (" D=" ^ String.concat "," (List.map string_of_z r.mr_deleted)); stop := true)
+    | _ -> Buffer.add_string b " ?"
+  end) ops;
+  (match !pending with Some _ -> Buffer.add_string b " asleep" | None -> ());
+  Buffer.contents b
+
 let process line =
   match String.split_on_char ' ' (String.trim line) with
   | "F" :: c :: _ ->
@@ -138,6 +200,7 @@ let process line =
       (* per-class verdicts of the reflective checks (evaluated outside Coq when an obligation broke) *)
       String.concat ";" (List.map (fun c ->
         string_of_z c ^ ":rt=" ^ b01 (rt_ok c) ^ ":rtx=" ^ b01 (List.exists (fun x -> Z.eqb x c) rt_exceptions)) object_classes)
+  | "Q" :: ops -> run_queue ops
   | [""] | [] -> ""
   | _ -> "? bad case"
 
